@@ -66,6 +66,15 @@ add("C19", "model_checking",
     "statutory insurance, not self-employed / retired).",
     "bounded exhaustive sweep of the wage lattice x configurations with an invariant on consecutive states", "2/C19")
 
+add("C20", "fault_enumeration",
+    "Exhaustive fault injection through compute_taxes_and_transfers: every fault class of the property (missing/duplicate p_id, each of the "
+    "four foreign keys dangling or pointing to oneself, every _hh input varying within a household, contradictory joint-assessment flags, "
+    "each required column missing, duplicated column names, every non-convertible dtype per typed input) at every eligible row/column of the "
+    "base populations, plus all pairs of fault classes: each must raise. Every lossless dtype variant (int8..uint64, float32, int for whole "
+    "floats, 0/1 for booleans) of every required input column must leave all default targets bit-identical and be announced when converted.",
+    "A fault counts as rejected when the call raises before returning. Base populations are the library households (2 quick, 3 thorough) on one date.",
+    "exhaustive enumeration of single faults and fault pairs at every position (fault-injection model checking of the input validation)", "2/C20")
+
 NOT_APPLICABLE = []
 
 
